@@ -14,7 +14,8 @@ LEVEL_TEXT = ("Theorems in Coq (Props/C11.v) over a model of pkcs7Padding, pkcs7
               "the textbook mode over pad(m); decrypting it returns m; decryption of any whole number of blocks is the textbook decryption "
               "followed by un-padding; output length 16*(|m|/16+1); with `in` modelled as a slice header into a heap of arrays no array "
               "existing at call time (so neither in nor its spare capacity) is written; SetIV accepts exactly 16 bytes and the helpers use "
-              "the package IV at call time; other key lengths give an error. The model is run (extracted, block cipher = SM4Spec) on all "
+              "the package IV at call time; other key lengths give an error; any history of SetIV / helper calls returns for each call the standard result on the values at call "
+              "time and the IV in force. The model is run (extracted, block cipher = SM4Spec) on all "
               "lengths 0..1024 x 4 modes with canary bytes behind len(in).")
 LEVEL_NOTE = ("Trusted: Coq kernel, extraction (ExtrOcamlBasic only), the hand-written model of the helpers' control flow (tied by the "
               "differential run), the transcription of SP 800-38A / RFC 5652 in ModesSpec.v (tied to crypto/cipher by the driver's oracle). "
@@ -38,7 +39,9 @@ RULE = ("seeded generator (VERIF_SEED): every plaintext length 0..1024 x {ecb,cb
         "with fresh keys), plus lengths up to 8 KiB sampled; a third of the messages end in bytes that look like a pad (k x k, 16 x 0x10, zeros, lone pad length); "
         "IV random / all-ff / package default, always installed through SetIV; `in` placed in front of 0..48 canary bytes inside one backing array "
         "(a quarter with no spare capacity), backing arrays, key and IV compared after the calls; key lengths 0..64; decryption of ragged / "
-        "invalid / empty inputs (no panic required, behaviour recorded); SetIV with lengths 0..40. Non-trivial: message or input non-empty; "
+        "invalid / empty inputs (no panic required, behaviour recorded); SetIV with lengths 0..40; histories of 2..4 helper calls (modes and directions "
+        "mixed) with SetIV (new IV, IV counted up in place, rejected lengths, or none) in between, on ONE key array, ONE IV array and ONE in array "
+        "whose contents are overwritten in place between calls, each result checked against the values at call time and the IV in force. Non-trivial: message or input non-empty; "
         "distinct = distinct case text")
 
 _spec = importlib.util.spec_from_file_location("checks._c05_sm4", os.path.join(os.path.dirname(os.path.abspath(__file__)), "c05.py"))
@@ -75,6 +78,29 @@ def py_encrypt(mode, key, iv, m):
     return out
 
 
+def py_decrypt(mode, key, iv, c):
+    """SP 800-38A decryption of whole blocks, then PKCS#7 un-padding; b"" when the pad is invalid (what the helpers return)"""
+    out = b""
+    fb = iv
+    for i in range(0, len(c) - len(c) % 16, 16):
+        b = c[i:i + 16]
+        if mode == "ecb":
+            p = sm4_block(key, b, True)
+        elif mode == "cbc":
+            p = _xor(sm4_block(key, b, True), fb); fb = b
+        elif mode == "cfb":
+            p = _xor(b, sm4_block(key, fb)); fb = b
+        else:
+            o = sm4_block(key, fb); p = _xor(b, o); fb = o
+        out += p
+    if not out or len(c) % 16:
+        return b""
+    k = out[-1]
+    if k == 0 or k > 16 or out[-k:] != bytes([k]) * k:
+        return b""
+    return out[:-k]
+
+
 def nontrivial(f):
     if f[0] == "R":
         return f[5] != "-"
@@ -91,10 +117,14 @@ def classify(f, io):
     if f[0] == "D":
         kind = io[0] if io[0] != "ok" else ("ok-empty" if len(io) > 1 and io[1] == "-" else "ok-bytes")
         return "D:%s:len%%16=%s:%s" % (f[2], "0" if len(_unhex(f[5])) % 16 == 0 else "x", kind)
+    if f[0] == "Q":
+        return "Q:%d calls:%s" % (len(f[2].split(",")), io[0])
     return "S:" + " ".join(io[:3])
 
 
 def same(f, io, mo):
+    if f[0] == "Q":
+        return io == mo
     if f[0] == "R":
         return io[:4] == mo[:4]
     if f[0] == "D":
@@ -129,6 +159,32 @@ def predicate(f, io):
                 return False, "ciphertext differs from SP 800-38A %s over the PKCS#7-padded plaintext" % mode
         return True, ""
     if op == "D":
+        return True, ""
+    if op == "Q":
+        calls = f[2].split(",")
+        if io[0] != "ok" or len(io) != 3:
+            return False, "history: unexpected result"
+        outs = io[1].split(",")
+        if len(outs) != len(calls):
+            return False, "history: wrong number of results"
+        iv = bytes(16)
+        for i, (c, got) in enumerate(zip(calls, outs)):
+            mode, d, key, ivs, x = c.split(":")
+            key, x = _unhex(key), _unhex(x)
+            s = "n"
+            if ivs != "~":
+                v = _unhex(ivs)
+                s = "o" if len(v) == 16 else "e"
+                if len(v) == 16:
+                    iv = v
+            want = py_encrypt(mode, key, iv, x) if d == "e" else py_decrypt(mode, key, iv, x)
+            if got != s + "/" + (want.hex() or "-"):
+                if got.split("/")[0] != s:
+                    return False, "history: SetIV accepted a wrong length or rejected 16 bytes (call %d)" % (i + 1)
+                return False, ("call %d of a history (%s %s) does not return the standard result for its arguments and the IV in force "
+                               "(the result depends on earlier calls or the IV was changed)" % (i + 1, mode, d))
+        if io[2] != "1":
+            return False, "history: a call wrote to the caller's key / in buffers or changed the package IV"
         return True, ""
     if op == "S":
         iv1, iv2, key, m = _unhex(f[2]), _unhex(f[3]), _unhex(f[4]), _unhex(f[5])
